@@ -244,7 +244,59 @@ func Or(as ...*Term) *Term {
 	if len(out) == 1 {
 		return out[0]
 	}
+	// (a and c) or (a and not c)  ==>  a      (joins after an if)
+	for i := 0; i < len(out); i++ {
+		for j := i + 1; j < len(out); j++ {
+			if m := mergeComplement(out[i], out[j]); m != nil {
+				rest := append([]*Term{m}, out[:i]...)
+				rest = append(rest, out[i+1:j]...)
+				rest = append(rest, out[j+1:]...)
+				return Or(rest...)
+			}
+		}
+	}
 	return App("or", SBool, out...)
+}
+
+func conjuncts(t *Term) []*Term {
+	if t.Op == "and" {
+		return t.Args
+	}
+	return []*Term{t}
+}
+
+func mergeComplement(a, b *Term) *Term {
+	ca, cb := conjuncts(a), conjuncts(b)
+	if len(ca) != len(cb) {
+		return nil
+	}
+	inB := map[int]bool{}
+	for _, x := range cb {
+		inB[x.id] = true
+	}
+	var onlyA *Term
+	for _, x := range ca {
+		if !inB[x.id] {
+			if onlyA != nil {
+				return nil
+			}
+			onlyA = x
+		}
+	}
+	if onlyA == nil {
+		return nil
+	}
+	comp := Not(onlyA)
+	if !inB[comp.id] {
+		return nil
+	}
+	var common []*Term
+	for _, x := range ca {
+		if x != onlyA {
+			common = append(common, x)
+		}
+	}
+	return And(common...)
 }
 
 func Implies(a, b *Term) *Term {
@@ -338,6 +390,13 @@ func Eq(a, b *Term) *Term {
 	if a.IsConst() && b.Op == "ite" && iteLeavesConst(b, 64) {
 		return Ite(b.Args[0], Eq(a, b.Args[1]), Eq(a, b.Args[2]))
 	}
+	if a.Op == "i2f" || b.Op == "i2f" {
+		if eqIntFloat != nil {
+			if r := eqIntFloat(a, b); r != nil {
+				return r
+			}
+		}
+	}
 	// datatype constructors
 	if a.Op == b.Op && isCtor(a.Op) && len(a.Args) == len(b.Args) {
 		var cs []*Term
@@ -361,6 +420,9 @@ func iteLeavesConst(t *Term, budget int) bool {
 	}
 	return t.IsConst()
 }
+
+// eqIntFloat compares two integer-valued float terms on their integers (set by the executor).
+var eqIntFloat func(a, b *Term) *Term
 
 var ctorTab = map[string][]string{} // constructor -> accessor names
 var accTab = map[string]struct {
@@ -686,6 +748,10 @@ func rebuild(t *Term, a []*Term) *Term {
 		return BVCmp(t.Op, a[0], a[1])
 	case "select":
 		return Select(a[0], a[1], t.Sort)
+	case "i2f":
+		if a[0].Op == "int" && a[0].IV.IsInt64() {
+			return FPLit(float64(a[0].IV.Int64()))
+		}
 	}
 	if _, ok := accTab[t.Op]; ok && len(a) == 1 {
 		return Acc(t.Op, t.Sort, a[0])
@@ -757,6 +823,8 @@ func (p *Printer) Prepare(roots ...*Term) {
 
 func opSMT(t *Term) string {
 	switch t.Op {
+	case "i2f":
+		return "i2f"
 	case "constarr":
 		return "(as const " + sortSMT(t.Sort) + ")"
 	}
